@@ -530,7 +530,10 @@ pub fn scenario_crc(ctx: &mut Ctx) -> ScResult {
     {
         let crc_now = u32::from_be_bytes([m[n - 4], m[n - 3], m[n - 2], m[n - 1]]);
         let plain_no_adjust = refcodec::crc32(&m[..n - 8]) ^ refcodec::FP_XOR;
-        let mut words: Vec<u32> = vec![refcodec::FP_XOR, u32::MAX, crc_now ^ crc_now.swap_bytes(), crc_now ^ plain_no_adjust, crc_now ^ refcodec::crc32(&m[..n - 8]), crc_now ^ !crc_now.rotate_left(8), 0x5354_0000, 0x0000_554e];
+        // (... and to the CRC taken while the length field did not cover the FINGERPRINT yet: a sender
+        // that appends the attribute like any other, computing its value first and the length last)
+        let pre_len = refcodec::crc32_with_len(&m[..n - 8], (n - 8 - 20) as u16);
+        let mut words: Vec<u32> = vec![crc_now ^ pre_len ^ refcodec::FP_XOR, crc_now ^ pre_len, refcodec::FP_XOR, u32::MAX, crc_now ^ crc_now.swap_bytes(), crc_now ^ plain_no_adjust, crc_now ^ refcodec::crc32(&m[..n - 8]), crc_now ^ !crc_now.rotate_left(8), 0x5354_0000, 0x0000_554e];
         words.retain(|w| *w != 0);
         let mut structured = 0u64;
         let offs: Vec<usize> = if n <= 96 { (0..=n - 4).collect() } else { vec![n - 4, n - 8, 0, 4, 8, 16, 20] };
